@@ -33,6 +33,7 @@ var valuePairs = [][2][]int64{
 	{{1, 3}, {-1, -3}}, // cancels to zero on shared entries
 	{{0, 5}, {2, 2}},   // zero divisor on one sample
 	{{2, 4}, {2, 4}},   // equal
+	{{3, 0}, {2, 4}},   // selected value zero while the mean divisor is not
 }
 
 // Case is the generator coordinates of one profile.
